@@ -711,21 +711,29 @@ mod pc_stream {
     #[derive(Clone, Debug)]
     /// `Answer` / `Reinvite` carry the endpoint and what the SDP announces as `a=ssrc`:
     /// 0 = no `a=ssrc` line, 1 = `SSRC`, 2 = `SSRC2`, 9 = as the case's `ssrc` flag says (SSRC or none)
-    pub enum Step { Pkt(usize, Vec<u8>), Answer(usize, u8), Reinvite(usize, u8), Stun(usize) }
+    /// `Stun(source, kind)`: kind 0 = Binding request without attributes, 1 = Binding INDICATION,
+    /// 2 = Binding request with USE-CANDIDATE + PRIORITY (all without credentials)
+    pub enum Step { Pkt(usize, Vec<u8>), Answer(usize, u8), Reinvite(usize, u8), Stun(usize, u8) }
+    fn stun_bytes(kind: u8, k: usize) -> Result<Vec<u8>, String> {
+        use rustrtc::transports::ice::stun::StunAttribute;
+        let m = StunMessage { class: if kind == 1 { StunClass::Indication } else { StunClass::Request }, method: StunMethod::Binding, transaction_id: [k as u8; 12],
+            attributes: if kind == 2 { vec![StunAttribute::UseCandidate, StunAttribute::Priority(0x7fff_ffff)] } else { vec![] } };
+        m.encode(None, true).map_err(|e| format!("stun encode: {e:?}"))
+    }
     pub const SSRC2: u32 = 0x5566_7788;
     /// what the PC feeds `set_remote_rtcp_addr` for an endpoint: nothing with rtcp-mux, else RTP port + 1 (symbolic R / U)
     fn ra_op(i: usize, mux: bool) -> String { if mux { "ra,-".into() } else { format!("ra,{},{}", SYM[i].0, SYM[i].1 + 1) } }
     fn rtcp_text(net: &Net, conn: &IceConn) -> String { match *conn.remote_rtcp_addr.read() { None => "-".into(), Some(a) => { let r = net.sym(a); format!("{}:{}", r.0, r.1) } } }
     fn ssrc_of(c: &PcCase, sid: u8) -> Option<u32> { match sid { 0 => None, 1 => Some(SSRC), 2 => Some(SSRC2), _ => if c.ssrc { Some(SSRC) } else { None } } }
     #[derive(Clone, Debug)]
-    pub struct PcCase { pub maxp: u8, pub ssrc: bool, pub mux: bool, pub steps: Vec<Step> }
+    pub struct PcCase { pub answerer: bool, pub maxp: u8, pub ssrc: bool, pub mux: bool, pub steps: Vec<Step> }
 
     pub fn case_text(c: &PcCase) -> String {
-        format!("pc {},{},{} {}", c.maxp, c.ssrc as u8, c.mux as u8, c.steps.iter().map(|s| match s {
+        format!("pc {},{},{}{} {}", c.maxp, c.ssrc as u8, c.mux as u8, if c.answerer { ",a" } else { "" }, c.steps.iter().map(|s| match s {
             Step::Pkt(i, b) => format!("p,{},{}", NAMES[*i], hex(b)),
             Step::Answer(i, sid) => format!("answer,{},{sid}", NAMES[*i]),
             Step::Reinvite(i, sid) => format!("reinvite,{},{sid}", NAMES[*i]),
-            Step::Stun(i) => format!("stun,{}", NAMES[*i]) }).collect::<Vec<_>>().join(" "))
+            Step::Stun(i, kind) => format!("stun,{},{kind}", NAMES[*i]) }).collect::<Vec<_>>().join(" "))
     }
     pub fn parse(s: &str) -> PcCase {
         let mut it = s.split_whitespace(); it.next();
@@ -733,8 +741,8 @@ mod pc_stream {
         let idx = |n: &str| NAMES.iter().position(|x| *x == n).unwrap();
         let steps = it.map(|t| { let f: Vec<&str> = t.split(',').collect(); match f[0] {
             "p" => Step::Pkt(idx(f[1]), crate::unhex(f[2])), "answer" => Step::Answer(idx(f[1]), f.get(2).map(|x| x.parse().unwrap()).unwrap_or(9)),
-            "reinvite" => Step::Reinvite(idx(f[1]), f.get(2).map(|x| x.parse().unwrap()).unwrap_or(9)), _ => Step::Stun(idx(f[1])) } }).collect();
-        PcCase { maxp: h[0].parse().unwrap(), ssrc: h[1] == "1", mux: h.get(2) != Some(&"0"), steps }
+            "reinvite" => Step::Reinvite(idx(f[1]), f.get(2).map(|x| x.parse().unwrap()).unwrap_or(9)), _ => Step::Stun(idx(f[1]), f.get(2).map(|x| x.parse().unwrap()).unwrap_or(0)) } }).collect();
+        PcCase { answerer: h.get(3) == Some(&"a"), maxp: h[0].parse().unwrap(), ssrc: h[1] == "1", mux: h.get(2) != Some(&"0"), steps }
     }
 
     struct Net { socks: Vec<UdpSocket> }
@@ -792,12 +800,21 @@ mod pc_stream {
         cfg.disable_ipv6 = true;
         cfg.probation_max_packets = if c.maxp == 0 { None } else { Some(c.maxp) };
         let pc = PeerConnection::new(cfg);
-        pc.add_transceiver(MediaKind::Audio, TransceiverDirection::SendRecv);
-        let offer = pc.create_offer().await.map_err(|e| format!("create_offer: {e:?}"))?;
-        pc.set_local_description(offer).map_err(|e| format!("set_local: {e:?}"))?;
+        if c.answerer {
+            // ANSWERER (ICE role Controlled): the remote OFFER names S; we answer. The connection is Stable afterwards,
+            // so the steps may be packets, STUN and re-INVITEs (no `Answer`).
+            let of = SessionDescription::parse(SdpType::Offer, &sdp(net.real(0), 1, ssrc_of(c, 9), c.mux)).map_err(|e| format!("sdp: {e:?}"))?;
+            pc.set_remote_description(of).await.map_err(|e| format!("set_remote(offer): {e:?}"))?;
+            let a = pc.create_answer().await.map_err(|e| format!("create_answer: {e:?}"))?;
+            pc.set_local_description(a).map_err(|e| format!("set_local(answer): {e:?}"))?;
+        } else {
+            pc.add_transceiver(MediaKind::Audio, TransceiverDirection::SendRecv);
+            let offer = pc.create_offer().await.map_err(|e| format!("create_offer: {e:?}"))?;
+            pc.set_local_description(offer).map_err(|e| format!("set_local: {e:?}"))?;
+            let pr = SessionDescription::parse(SdpType::Pranswer, &sdp(net.real(0), 1, ssrc_of(c, 9), c.mux)).map_err(|e| format!("sdp: {e:?}"))?;
+            pc.set_remote_description(pr).await.map_err(|e| format!("set_remote(pranswer): {e:?}"))?;
+        }
         let local = pc.ice_transport().local_candidates().into_iter().find(|c| c.component == 1).ok_or("no local candidate")?.address;
-        let pr = SessionDescription::parse(SdpType::Pranswer, &sdp(net.real(0), 1, ssrc_of(c, 9), c.mux)).map_err(|e| format!("sdp: {e:?}"))?;
-        pc.set_remote_description(pr).await.map_err(|e| format!("set_remote(pranswer): {e:?}"))?;
         let mut transport = None;
         for _ in 0..500 { if let Some(t) = pc.verif_lc_rtp_transport() { transport = Some(t); break; } tokio::time::sleep(Duration::from_millis(2)).await; }
         let conn = transport.ok_or("no rtp transport after pranswer")?.ice_conn();
@@ -814,6 +831,7 @@ mod pc_stream {
         let mut signaled: (usize, Option<u32>) = (0, ssrc_of(c, 9)); // endpoint and a=ssrc of the last applied remote SDP
         for (k, st) in c.steps.iter().enumerate() {
             let before = *conn.remote_addr.read();
+            let before_latched = conn.rtp_latched.load(Ordering::Relaxed);
             match st {
                 Step::Pkt(i, b) => {
                     let n0 = conn.rx_packets.load(Ordering::Relaxed);
@@ -845,12 +863,12 @@ mod pc_stream {
                         pair_remote = *i; signaled = (*i, ss);
                     } else { out.model_ops.push(format!("mp,{}", c.maxp)); }
                 }
-                Step::Stun(i) => {
-                    let m = StunMessage { class: StunClass::Request, method: StunMethod::Binding, transaction_id: [k as u8; 12], attributes: vec![] };
-                    let bytes = m.encode(None, true).map_err(|e| format!("stun encode: {e:?}"))?;
+                Step::Stun(i, kind) => {
+                    let bytes = stun_bytes(*kind, k)?;
                     net.socks[*i].send_to(&bytes, local).await.map_err(|e| format!("send: {e}"))?;
-                    // the rewrite applies to a source with the pair's port and another IP
-                    let applies = SYM[*i].1 == SYM[pair_remote].1 && SYM[*i].0 != SYM[pair_remote].0;
+                    // the rewrite applies to a REQUEST from a source with the pair's port and another IP; an indication, a
+                    // request from any other port (also on the pair's IP) and USE-CANDIDATE without credentials change nothing
+                    let applies = *kind != 1 && SYM[*i].1 == SYM[pair_remote].1 && SYM[*i].0 != SYM[pair_remote].0;
                     if applies { out.model_ops.push(format!("pr,{},{}", SYM[*i].0, SYM[*i].1)); pair_remote = *i; out.stun_rewrites += 1; }
                     else { out.model_ops.push(format!("mp,{}", c.maxp)); } // a no-op for the model
                     tokio::time::sleep(Duration::from_millis(30)).await;
@@ -875,18 +893,18 @@ mod pc_stream {
                         format!("step {k}: destination field {:?}, datagram arrived at {:?}", net.sym(dest), got.map(|g| NAMES[g])))); }
                 }
             }
-            if matches!(st, Step::Stun(_)) && *conn.remote_addr.read() != before {
+            if let Step::Stun(_, kind) = st { if *conn.remote_addr.read() != before {
                 out.stun_moved_open += 1;
-                // KNOWN finding (clause 1, literally): an unauthenticated STUN request moved the open latch's destination
-                // to a host that never sent RTP. Emitted with its own signature so that any widening (other ports: signature
-                // below; a latched destination: sticky oracle; other transports) shows up as something else.
-                if !out.model_ops.last().map(|t| t.starts_with("mp,")).unwrap_or(false) {
-                    out.fails.push(("pc:move:stun-request-moved-open-destination".into(), format!("step {k}: {:?} -> {:?} by a STUN binding request without credentials", net.sym(before), net.sym(*conn.remote_addr.read()))));
-                }
-                if out.model_ops.last().map(|t| t.starts_with("mp,")).unwrap_or(false) {
-                    out.fails.push(("pc:move:stun-request-not-from-the-pair-port-moved-destination".into(), format!("step {k}: {:?} -> {:?}", net.sym(before), net.sym(*conn.remote_addr.read()))));
-                }
-            }
+                let predicted = !out.model_ops.last().map(|t| t.starts_with("mp,")).unwrap_or(false);
+                // KNOWN finding (clause 1, literally), with exactly its conditions: latch OPEN before the step, a Binding REQUEST,
+                // source = pair port on another IP. Everything else that moves the destination gets its own (unlisted) signature.
+                let sig = if before_latched { "pc:move:stun-moved-latched-destination" }
+                    else if *kind == 1 { "pc:move:stun-indication-moved-destination" }
+                    else if predicted { "pc:move:stun-request-moved-open-destination" }
+                    else if *kind == 2 { "pc:move:stun-use-candidate-without-credentials-moved-destination" }
+                    else { "pc:move:stun-request-not-from-the-pair-port-moved-destination" };
+                out.fails.push((sig.into(), format!("step {k}: {:?} -> {:?} by a STUN binding {} without credentials", net.sym(before), net.sym(*conn.remote_addr.read()), if *kind == 1 { "indication" } else { "request" })));
+            } }
             { let (on, exp, mx, pr) = conn.verif_latch_state(); out.hidden.push(format!("on={on} expected={exp} maxp={mx} prob={:?}", pr.map(|p| (p.0, p.1, p.2.len())))); }
         }
         pc.close();
@@ -949,34 +967,42 @@ mod pc_stream {
         let rtcp_ = |i: usize| Step::Pkt(i, rtcp());
         let mut v = vec![
             // commit by marker, then everything that must not move the destination
-            PcCase { maxp: 6, ssrc: true, mux: true, steps: vec![p(1, true, 10), p(2, true, 1), rtcp_(3), wrong(3), Step::Stun(5), Step::Answer(0, 9), Step::Stun(5), Step::Stun(1), p(3, true, 2)] },
+            PcCase { answerer: false, maxp: 6, ssrc: true, mux: true, steps: vec![p(1, true, 10), p(2, true, 1), rtcp_(3), wrong(3), Step::Stun(5, 0), Step::Answer(0, 9), Step::Stun(5, 0), Step::Stun(1, 0), p(3, true, 2)] },
             // re-INVITE to a new endpoint resets and retargets; STUN from the new pair's port retargets the open latch
-            PcCase { maxp: 6, ssrc: true, mux: true, steps: vec![p(1, true, 10), Step::Answer(0, 9), Step::Reinvite(4, 9), rtcp_(2), Step::Stun(5), Step::Stun(6), wrong(1), p(2, true, 3), Step::Stun(5), Step::Reinvite(4, 9)] },
+            PcCase { answerer: false, maxp: 6, ssrc: true, mux: true, steps: vec![p(1, true, 10), Step::Answer(0, 9), Step::Reinvite(4, 9), rtcp_(2), Step::Stun(5, 0), Step::Stun(6, 0), wrong(1), p(2, true, 3), Step::Stun(5, 0), Step::Reinvite(4, 9)] },
             // open latch: pair updates do move it, wrong-SSRC / RTCP / non-matching STUN do not
-            PcCase { maxp: 6, ssrc: true, mux: true, steps: vec![rtcp_(1), wrong(2), Step::Stun(1), Step::Stun(5), p(1, false, 10), Step::Answer(4, 9), Step::Stun(6), p(2, false, 20), p(2, false, 21), p(2, false, 22)] },
+            PcCase { answerer: false, maxp: 6, ssrc: true, mux: true, steps: vec![rtcp_(1), wrong(2), Step::Stun(1, 0), Step::Stun(5, 0), p(1, false, 10), Step::Answer(4, 9), Step::Stun(6, 0), p(2, false, 20), p(2, false, 21), p(2, false, 22)] },
             // changed final answer resets the latch and retargets
-            PcCase { maxp: 3, ssrc: true, mux: false, steps: vec![p(1, true, 10), Step::Answer(4, 9), rtcp_(2), p(3, false, 5), p(2, false, 9), p(3, false, 6)] },
+            PcCase { answerer: false, maxp: 3, ssrc: true, mux: false, steps: vec![p(1, true, 10), Step::Answer(4, 9), rtcp_(2), p(3, false, 5), p(2, false, 9), p(3, false, 6)] },
             // same final answer keeps the latched NAT address
-            PcCase { maxp: 3, ssrc: false, mux: true, steps: vec![p(1, true, 10), Step::Answer(0, 9), p(2, true, 1), Step::Stun(5)] },
+            PcCase { answerer: false, maxp: 3, ssrc: false, mux: true, steps: vec![p(1, true, 10), Step::Answer(0, 9), p(2, true, 1), Step::Stun(5, 0)] },
             // immediate-latch mode, no SSRC known
-            PcCase { maxp: 0, ssrc: false, mux: false, steps: vec![rtcp_(2), p(2, false, 1), p(1, false, 2), Step::Answer(4, 9), Step::Stun(6), Step::Reinvite(0, 9), p(3, false, 9)] },
+            PcCase { answerer: false, maxp: 0, ssrc: false, mux: false, steps: vec![rtcp_(2), p(2, false, 1), p(1, false, 2), Step::Answer(4, 9), Step::Stun(6, 0), Step::Reinvite(0, 9), p(3, false, 9)] },
             // rule competition through the real sockets (window 6)
-            PcCase { maxp: 6, ssrc: true, mux: true, steps: vec![p(3, false, 1), p(1, false, 100), p(3, false, 10), p(1, false, 101), p(3, false, 20), p(1, false, 102), p(2, true, 0)] },
+            PcCase { answerer: false, maxp: 6, ssrc: true, mux: true, steps: vec![p(3, false, 1), p(1, false, 100), p(3, false, 10), p(1, false, 101), p(3, false, 20), p(1, false, 102), p(2, true, 0)] },
         ];
         // the SSRC announced by a later SDP must reach the latch (primary retarget site): a re-INVITE / changed answer
         // announcing SSRC2 — old-SSRC RTP must no longer move or commit anything, SSRC2 RTP must
         let p2 = |i: usize, m: bool, seq: u16| Step::Pkt(i, rtp(m, seq, seq as u32, SSRC2));
-        v.push(PcCase { maxp: 3, ssrc: true, mux: true, steps: vec![p(1, true, 10), Step::Answer(0, 9), Step::Reinvite(4, 2), p(2, true, 11), p(2, false, 12), p2(3, false, 50), p2(3, false, 51), p2(3, false, 52)] });
-        v.push(PcCase { maxp: 0, ssrc: true, mux: true, steps: vec![Step::Answer(4, 2), p(1, false, 10), p2(2, false, 20), p(3, false, 30)] });
-        v.push(PcCase { maxp: 6, ssrc: true, mux: false, steps: vec![p(1, true, 10), Step::Answer(0, 9), Step::Reinvite(0, 2), p(2, true, 11), p2(3, true, 50), Step::Reinvite(0, 0), p(1, true, 12), Step::Reinvite(4, 0), p(1, true, 13), p2(2, true, 60)] });
-        v.push(PcCase { maxp: 2, ssrc: false, mux: true, steps: vec![p(1, false, 10), Step::Answer(0, 1), p2(2, false, 20), p2(2, false, 21), p(3, false, 30), p(3, false, 40)] });
+        v.push(PcCase { answerer: false, maxp: 3, ssrc: true, mux: true, steps: vec![p(1, true, 10), Step::Answer(0, 9), Step::Reinvite(4, 2), p(2, true, 11), p(2, false, 12), p2(3, false, 50), p2(3, false, 51), p2(3, false, 52)] });
+        v.push(PcCase { answerer: false, maxp: 0, ssrc: true, mux: true, steps: vec![Step::Answer(4, 2), p(1, false, 10), p2(2, false, 20), p(3, false, 30)] });
+        v.push(PcCase { answerer: false, maxp: 6, ssrc: true, mux: false, steps: vec![p(1, true, 10), Step::Answer(0, 9), Step::Reinvite(0, 2), p(2, true, 11), p2(3, true, 50), Step::Reinvite(0, 0), p(1, true, 12), Step::Reinvite(4, 0), p(1, true, 13), p2(2, true, 60)] });
+        v.push(PcCase { answerer: false, maxp: 2, ssrc: false, mux: true, steps: vec![p(1, false, 10), Step::Answer(0, 1), p2(2, false, 20), p2(2, false, 21), p(3, false, 30), p(3, false, 40)] });
+        // STUN that must NOT move an OPEN latch: requests from the pair's own IP at another port (R = S's RTCP port, U = T's, C
+        // next to A after a rewrite), Binding INDICATIONS from the one source a request may rewrite to (X / Y), and requests
+        // with USE-CANDIDATE from anywhere — offerer (Controlling) and ANSWERER (Controlled, where a nomination is honoured)
+        v.push(PcCase { answerer: false, maxp: 6, ssrc: true, mux: true, steps: vec![Step::Stun(7, 0), Step::Stun(5, 1), Step::Stun(1, 2), Step::Stun(7, 2), Step::Stun(5, 0), Step::Stun(7, 0), Step::Stun(0, 1),
+            Step::Answer(4, 9), Step::Stun(8, 0), Step::Stun(6, 1), Step::Stun(3, 2), Step::Stun(6, 0), Step::Stun(8, 0), p(1, true, 10), Step::Stun(4, 0), Step::Stun(4, 2)] });
+        v.push(PcCase { answerer: true, maxp: 6, ssrc: true, mux: true, steps: vec![Step::Stun(1, 2), Step::Stun(7, 2), Step::Stun(5, 1), Step::Stun(7, 0), Step::Stun(5, 2), Step::Stun(0, 2), wrong(1), rtcp_(2),
+            Step::Reinvite(4, 9), Step::Stun(8, 0), Step::Stun(3, 2), Step::Stun(6, 1), p(2, true, 20), Step::Stun(6, 2), Step::Stun(1, 2)] });
+        v.push(PcCase { answerer: true, maxp: 0, ssrc: false, mux: false, steps: vec![rtcp_(1), Step::Stun(2, 2), Step::Stun(5, 0), Step::Stun(2, 0), p(2, false, 5), Step::Stun(1, 2), Step::Reinvite(4, 1), Step::Stun(1, 2), p2(3, false, 9)] });
         // RTCP destination in a real connection (no rtcp-mux): learnt once from the first foreign RTCP sender, not again
         // until a new description re-arms it
-        v.push(PcCase { maxp: 3, ssrc: true, mux: false, steps: vec![rtcp_(1), rtcp_(2), rtcp_(3), p(1, true, 10), rtcp_(3), Step::Answer(4, 9), rtcp_(2), rtcp_(3), rtcp_(1)] });
+        v.push(PcCase { answerer: false, maxp: 3, ssrc: true, mux: false, steps: vec![rtcp_(1), rtcp_(2), rtcp_(3), p(1, true, 10), rtcp_(3), Step::Answer(4, 9), rtcp_(2), rtcp_(3), rtcp_(1)] });
         let mut rng = Rng::new(args.seed ^ 0x18);
         let n = if args.tier_thorough { 120 } else { 14 };
         for _ in 0..n {
-            let mut steps = vec![];
+            let mut steps: Vec<Step> = vec![];
             let mut answered = false;
             let mut seqs = [100u16, 200, 300, 400, 500, 600, 700];
             for _ in 0..rng.range(4, 12) {
@@ -984,11 +1010,13 @@ mod pc_stream {
                 steps.push(if r < 45 { let i = *rng.pick(&[1usize, 2, 3, 3, 2, 5]); seqs[i] = if rng.chance(2, 3) { seqs[i].wrapping_add(1) } else { seqs[i].wrapping_sub(3) }; p(i, rng.chance(1, 6), seqs[i]) }
                     else if r < 55 { let i = *rng.pick(&[1usize, 2, 3]); seqs[i] = seqs[i].wrapping_add(1); p2(i, rng.chance(1, 4), seqs[i]) }
                     else if r < 65 { wrong(*rng.pick(&[1usize, 2, 3])) } else if r < 75 { rtcp_(*rng.pick(&[1usize, 2, 3])) }
-                    else if r < 87 { Step::Stun(*rng.pick(&[1usize, 3, 5, 6])) }
+                    else if r < 87 { Step::Stun(*rng.pick(&[1usize, 3, 5, 6, 7, 8, 2]), *rng.pick(&[0u8, 0, 0, 1, 2])) }
                     else if answered { Step::Reinvite(*rng.pick(&[0usize, 4]), *rng.pick(&[9u8, 9, 1, 2, 0])) }
                     else { answered = true; Step::Answer(*rng.pick(&[0usize, 4]), *rng.pick(&[9u8, 9, 2, 0])) });
             }
-            v.push(PcCase { maxp: *rng.pick(&[0u8, 2, 3, 6]), ssrc: rng.chance(2, 3), mux: rng.chance(1, 2), steps });
+            let answerer = rng.chance(1, 3);
+            if answerer { steps = steps.into_iter().map(|st| match st { Step::Answer(i, sid) => Step::Reinvite(i, sid), o => o }).collect(); }
+            v.push(PcCase { answerer, maxp: *rng.pick(&[0u8, 2, 3, 6]), ssrc: rng.chance(2, 3), mux: rng.chance(1, 2), steps });
         }
         v
     }
@@ -1061,20 +1089,24 @@ mod pc_stream {
                     }
                     video_pair = Some(*i);
                 }
-                Step::Stun(i) => {
+                Step::Stun(i, kind) => {
                     // the extra transport has its own IceTransport and pair monitor: same rewrite rule as on the primary
-                    let m = StunMessage { class: StunClass::Request, method: StunMethod::Binding, transaction_id: [k as u8; 12], attributes: vec![] };
-                    let bytes = m.encode(None, true).map_err(|e| format!("stun encode: {e:?}"))?;
+                    let bytes = stun_bytes(*kind, k)?;
                     let before = *conn.remote_addr.read();
+                    let before_latched = conn.rtp_latched.load(Ordering::Relaxed);
                     net.socks[*i].send_to(&bytes, local).await.map_err(|e| format!("send: {e}"))?;
-                    let applies = match video_pair { Some(pr) => SYM[*i].1 == SYM[pr].1 && SYM[*i].0 != SYM[pr].0, None => false };
+                    let applies = *kind != 1 && match video_pair { Some(pr) => SYM[*i].1 == SYM[pr].1 && SYM[*i].0 != SYM[pr].0, None => false };
                     if applies { out.model_ops.push(format!("pr,{},{}", SYM[*i].0, SYM[*i].1)); video_pair = Some(*i); out.stun_rewrites += 1; }
                     else { out.model_ops.push(format!("mp,{}", c.maxp)); }
                     tokio::time::sleep(Duration::from_millis(50)).await;
                     if *conn.remote_addr.read() != before {
                         out.stun_moved_open += 1;
-                        if applies { out.fails.push(("pc:move:stun-request-moved-open-destination".into(), format!("step {k} (extra transport): {:?} -> {:?} by a STUN binding request without credentials", net.sym(before), net.sym(*conn.remote_addr.read())))); }
-                        else { out.fails.push(("pc:move:stun-request-not-from-the-pair-port-moved-destination".into(), format!("step {k} (extra transport): {:?} -> {:?}", net.sym(before), net.sym(*conn.remote_addr.read())))); }
+                        let sig = if before_latched { "pc:move:stun-moved-latched-destination" }
+                            else if *kind == 1 { "pc:move:stun-indication-moved-destination" }
+                            else if applies { "pc:move:stun-request-moved-open-destination" }
+                            else if *kind == 2 { "pc:move:stun-use-candidate-without-credentials-moved-destination" }
+                            else { "pc:move:stun-request-not-from-the-pair-port-moved-destination" };
+                        out.fails.push((sig.into(), format!("step {k} (extra transport): {:?} -> {:?}", net.sym(before), net.sym(*conn.remote_addr.read()))));
                     }
                 }
                 _ => return Err("only packets, STUN, one answer and re-INVITEs in an extra-transport scenario".into()),
@@ -1138,11 +1170,11 @@ mod pc_stream {
         let p = |i: usize, m: bool, seq: u16| Step::Pkt(i, rtp(m, seq, seq as u32, SSRC));
         vec![
             // RTCP, DTLS-like and garbage before anything is known must not set the destination; RTP (no SSRC known) does
-            PcCase { maxp: 6, ssrc: false, mux: true, steps: vec![Step::Pkt(1, rtcp()), Step::Pkt(2, vec![22, 254, 253, 0, 0, 0, 0, 0, 0, 0, 0, 0, 1, 0]), Step::Pkt(3, vec![200, 1, 2, 3]),
+            PcCase { answerer: false, maxp: 6, ssrc: false, mux: true, steps: vec![Step::Pkt(1, rtcp()), Step::Pkt(2, vec![22, 254, 253, 0, 0, 0, 0, 0, 0, 0, 0, 0, 1, 0]), Step::Pkt(3, vec![200, 1, 2, 3]),
                 p(1, false, 10), p(2, false, 20), p(2, false, 21), p(2, false, 22), Step::Pkt(3, rtcp()), Step::Answer(4, 2), Step::Pkt(1, rtcp()), p(3, true, 5), Step::Pkt(3, rtp(true, 6, 6, SSRC2)), Step::Pkt(1, rtcp()),
-                Step::Stun(6), Step::Stun(1),
-                Step::Reinvite(0, 1), Step::Stun(1), Step::Stun(5), Step::Pkt(2, rtp(true, 7, 7, SSRC2)), p(1, true, 8), Step::Stun(6)] },
-            PcCase { maxp: 0, ssrc: false, mux: true, steps: vec![Step::Pkt(3, rtcp()), Step::Pkt(3, rtp(false, 1, 1, 5)[..8].to_vec()), p(3, false, 1), p(1, true, 2), Step::Answer(4, 1), Step::Pkt(2, rtcp()), Step::Pkt(2, rtp(false, 9, 9, SSRC2)), p(2, false, 9), Step::Reinvite(4, 2), p(1, false, 10), Step::Pkt(3, rtp(false, 11, 11, SSRC2))] },
+                Step::Stun(6, 0), Step::Stun(1, 0),
+                Step::Reinvite(0, 1), Step::Stun(1, 0), Step::Stun(5, 0), Step::Pkt(2, rtp(true, 7, 7, SSRC2)), p(1, true, 8), Step::Stun(6, 0)] },
+            PcCase { answerer: false, maxp: 0, ssrc: false, mux: true, steps: vec![Step::Pkt(3, rtcp()), Step::Pkt(3, rtp(false, 1, 1, 5)[..8].to_vec()), p(3, false, 1), p(1, true, 2), Step::Answer(4, 1), Step::Pkt(2, rtcp()), Step::Pkt(2, rtp(false, 9, 9, SSRC2)), p(2, false, 9), Step::Reinvite(4, 2), p(1, false, 10), Step::Pkt(3, rtp(false, 11, 11, SSRC2))] },
         ]
     }
 
@@ -1150,7 +1182,7 @@ mod pc_stream {
         for c in scenarios(args) { emit(run, rt, &c); }
         // answerer side: the offer's a=ssrc must be the expectation of the freshly created extra transport
         for (sid, maxp) in [(1u8, 3u8), (2, 0), (0, 3)] {
-            let c = PcCase { maxp, ssrc: false, mux: true, steps: vec![Step::Pkt(1, rtcp()), Step::Pkt(2, rtp(true, 5, 5, if sid == 1 { SSRC2 } else { SSRC })),
+            let c = PcCase { answerer: false, maxp, ssrc: false, mux: true, steps: vec![Step::Pkt(1, rtcp()), Step::Pkt(2, rtp(true, 5, 5, if sid == 1 { SSRC2 } else { SSRC })),
                 Step::Pkt(3, rtp(false, 7, 7, if sid == 1 { SSRC } else { SSRC2 })), Step::Pkt(3, rtp(true, 8, 8, if sid == 1 { SSRC } else { SSRC2 })), Step::Pkt(1, rtp(true, 9, 9, SSRC))] };
             let text = case_text(&c).replacen("pc ", &format!("pc answerer{sid}:"), 1);
             let r = rt.block_on(exec_extra_answerer(&c, sid));
@@ -1227,13 +1259,15 @@ mod race {
     }
     /// yield points that lie INSIDE a latch critical section (everything except the start of the call and the
     /// point right before `probation.lock()`): a thread parked there must hold the probation mutex
-    fn interior(name: &str) -> bool { name != "start" && !name.ends_with(":before-lock") }
+    fn interior(name: &str) -> bool { name != "start" && !name.ends_with(":before-lock") && !name.ends_with(":unlocked") }
+    /// `…:unlocked`: the thread has just released the probation mutex (end of its critical section) but is not done
 
     #[derive(Clone, Debug, PartialEq)]
-    pub enum Api { Sig(u8, u16), Reset, Pair(u8, u16) }
+    /// `Pkt`: the second thread is another `receive()` (the RTCP-socket reader task of a non-mux call delivers to the same `IceConn`)
+    pub enum Api { Sig(u8, u16), Reset, Pair(u8, u16), Pkt(u8, u16, Vec<u8>) }
     pub struct RaceCase { pub setup: Case, pub pkt: (u8, u16, Vec<u8>), pub api: Api, pub sched: String }
 
-    fn api_text(a: &Api) -> String { match a { Api::Sig(i, p) => format!("sg,{i},{p}"), Api::Reset => "rs".into(), Api::Pair(i, p) => format!("pr,{i},{p}") } }
+    fn api_text(a: &Api) -> String { match a { Api::Sig(i, p) => format!("sg,{i},{p}"), Api::Reset => "rs".into(), Api::Pair(i, p) => format!("pr,{i},{p}"), Api::Pkt(i, p, b) => format!("p,{i},{p},{}", hex(b)) } }
     pub fn text(c: &RaceCase) -> String {
         format!("race {} | p,{},{},{} | {} | {}", case_text(&c.setup), c.pkt.0, c.pkt.1, hex(&c.pkt.2), api_text(&c.api), c.sched)
     }
@@ -1241,7 +1275,7 @@ mod race {
         let parts: Vec<&str> = s.trim_start_matches("race ").split(" | ").collect();
         let setup = parse_case(parts[0]);
         let pk = match &parse_case(&format!("init,0,0,0,0 {}", parts[1])).ops[0] { Op::Pkt(i, p, b) => (*i, *p, b.clone()), _ => panic!() };
-        let api = match &parse_case(&format!("init,0,0,0,0 {}", parts[2])).ops[0] { Op::Sig(i, p) => Api::Sig(*i, *p), Op::Reset => Api::Reset, Op::Pair(i, p) => Api::Pair(*i, *p), _ => panic!() };
+        let api = match &parse_case(&format!("init,0,0,0,0 {}", parts[2])).ops[0] { Op::Sig(i, p) => Api::Sig(*i, *p), Op::Reset => Api::Reset, Op::Pair(i, p) => Api::Pair(*i, *p), Op::Pkt(i, p, b) => Api::Pkt(*i, *p, b.clone()), _ => panic!() };
         RaceCase { setup, pkt: pk, api, sched: parts[3].to_string() }
     }
 
@@ -1263,7 +1297,8 @@ mod race {
     }
     fn do_api(conn: &IceConn, a: &Api) { match a {
         Api::Sig(i, p) => hook::set_remote_addr_from_signaling(conn, sa(*i, *p)), Api::Reset => conn.reset_latch(),
-        Api::Pair(i, p) => hook::set_remote_addr_from_selected_pair(conn, sa(*i, *p)) } }
+        Api::Pair(i, p) => hook::set_remote_addr_from_selected_pair(conn, sa(*i, *p)),
+        Api::Pkt(i, p, b) => do_pkt(conn, &(*i, *p, b.clone())) } }
     fn do_pkt(conn: &IceConn, pk: &(u8, u16, Vec<u8>)) {
         let rt = tokio::runtime::Builder::new_current_thread().build().unwrap();
         let mut mb = vec![];
@@ -1319,7 +1354,7 @@ mod race {
                 let t = if ch == 'r' { 0 } else { 1 };
                 let o = 1 - t;
                 // a blocked thread must still be inside lock(): it may not have reached a point while the holder is not done
-                for b in 0..2 { if blocked[b] { let g = ctl.m.lock().unwrap(); if settled(&g, b) && !g.done[1 - b] {
+                for b in 0..2 { if blocked[b] { let g = ctl.m.lock().unwrap(); if settled(&g, b) && !g.done[1 - b] && !g.paused[1 - b].map(|n| n.ends_with(":unlocked")).unwrap_or(false) {
                     out.violations.push(("race:mutual-exclusion-violated".into(), format!("pick {k}: the {} thread, released at its before-lock point while the {} thread holds the probation mutex, reached {:?} before the holder finished", name_of(b), name_of(1 - b), g.paused[b])));
                     blocked[b] = false; } } }
                 let at = { let g = ctl.m.lock().unwrap(); if g.done[t] || blocked[t] { continue; } g.paused[t].unwrap_or("") };
@@ -1335,8 +1370,12 @@ mod race {
                 let (now_at, t_done) = { let g = ctl.m.lock().unwrap(); (g.paused[t], g.done[t]) };
                 if let Some(n) = now_at { if interior(n) && !conn.verif_probation_locked() {
                     out.violations.push(("race:critical-section-without-the-mutex".into(), format!("pick {k}: the {} thread is at `{n}` (inside its critical section) and the probation mutex is free", name_of(t)))); } }
-                // leaving the critical section hands the mutex to a blocked peer, which runs to its next point by itself
-                if t_done && blocked[o] {
+                if let Some(n) = now_at { if n.ends_with(":unlocked") && conn.verif_probation_locked() && !blocked[o] {
+                    out.violations.push(("race:mutex-still-held-after-the-critical-section".into(), format!("pick {k}: the {} thread is at `{n}` and the probation mutex is locked", name_of(t)))); } }
+                // leaving the critical section (done, or parked right behind the unlock) hands the mutex to a blocked peer, which
+                // runs to its next point by itself
+                let left_crit = t_done || now_at.map(|n| n.ends_with(":unlocked")).unwrap_or(false);
+                if left_crit && blocked[o] {
                     if let Err(e) = wait_parked(o) { err = Some(e); break 'sched; }
                     blocked[o] = false;
                     let g = ctl.m.lock().unwrap();
@@ -1379,7 +1418,9 @@ mod race {
     pub fn run(run: &mut Run, args: &Args) {
         let bits = if args.tier_thorough { 9 } else { 7 };
         for (name, setup, pk) in setups() {
-            for api in [Api::Sig(SIG.0, SIG.1), Api::Reset, Api::Pair(PAIR.0, PAIR.1), Api::Pair(SRC[1].0, SRC[1].1)] {
+            // the second thread: each latch API call, or a SECOND receive() (other source: with a marker / continuing nothing)
+            for api in [Api::Sig(SIG.0, SIG.1), Api::Reset, Api::Pair(PAIR.0, PAIR.1), Api::Pair(SRC[1].0, SRC[1].1),
+                        Api::Pkt(SRC[2].0, SRC[2].1, rtp(true, 3, 3, SSRC)), Api::Pkt(SRC[1].0, SRC[1].1, rtp(false, 77, 77, SSRC))] {
                 for idx in 0..(1u32 << bits) {
                     let sched: String = (0..bits).map(|k| if idx >> k & 1 == 0 { 'r' } else { 's' }).collect();
                     let c = RaceCase { setup: Case { init: setup.init, maxp: setup.maxp, tcp: false, ops: setup.ops.clone() }, pkt: pk.clone(), api: api.clone(), sched };
@@ -1393,7 +1434,7 @@ mod race {
                             for (sig, d) in &ro.violations { run.fail(sig, &t, d); }
                             let ser = serial(&c);
                             if out != ser[0] && out != ser[1] {
-                                run.fail(&format!("race:{}:outcome-not-serializable", match api { Api::Sig(..) => "signaling-retarget", Api::Reset => "reset", Api::Pair(..) => "pair-update" }),
+                                run.fail(&format!("race:{}:outcome-not-serializable", match api { Api::Sig(..) => "signaling-retarget", Api::Reset => "reset", Api::Pair(..) => "pair-update", Api::Pkt(..) => "second-receive" }),
                                     &t, &format!("{name}: outcome {out}; receive-then-api {}; api-then-receive {}", ser[0], ser[1]));
                             } else { run.count(if out == ser[0] && out == ser[1] { "race_outcome_same_in_both_orders" } else if out == ser[0] { "race_outcome_receive_first" } else { "race_outcome_api_first" }); }
                         }
